@@ -978,6 +978,11 @@ class TorsionRegularizer(keras.regularizers.Regularizer):
         amount of regularization for the interaction term between two dimensions
         is the product of the corresponding per dimension amounts.
     """
+    for amount, info in ((l1, "l1"), (l2, "l2")):
+      lattice_lib.verify_hyperparameters(
+          lattice_sizes=lattice_sizes,
+          regularization_amount=amount,
+          regularization_info=info)
     self.lattice_sizes = lattice_sizes
     self.l1 = l1
     self.l2 = l2
